@@ -6,6 +6,11 @@
 //!        present; a difference is a `vecmismatch` event, which the trace specification rejects); every K-th case
 //!        (all, K = 1) is logged event by event for TracePromHist.tla.
 //!   c15 record --runs N --out F       seeded random cases of all four kinds, all logged.
+//!   c15 par --iters N [--series S] [--samples K] --out F
+//!        real-parallel drains: per iteration a fresh recorder (overrides so that histogram- and summary-rendered
+//!        series exist), S new series with K values each (nothing is recorded during the drains), then a barrier
+//!        releases render() + run_upkeep() (odd iterations: render() + render()) on two threads; afterwards a
+//!        quiescent render().  One `par` event per iteration carries the recorded samples and the parsed renders.
 //!
 //! Values are {"k":"fin","n":i} (i eighths, exact in f64) | {"k":"nan"|"pinf"|"ninf","n":0}; text = code points;
 //! time = whole ticks of 1 ms on a quanta mock clock.
@@ -591,6 +596,75 @@ fn run_rec_case(c: &Value, log: bool, w: &mut Writer, st: &mut Stats) {
     emit(evs, log || bad, w, st);
 }
 
+
+// ------------------------------------------------------------------------------------------- parallel drains
+fn run_par_iter(it: usize, nseries: usize, nsamples: usize, rng: &mut StdRng, w: &mut Writer, st: &mut Stats) {
+    let cfg = json!({
+        "calls": [
+            {"kind": "prefix", "pat": cps("h_"), "b": [{"k":"fin","n":32},{"k":"fin","n":72},{"k":"fin","n":152}]},
+            {"kind": "full", "pat": cps("h_series_0"), "b": [{"k":"fin","n":8},{"k":"fin","n":9}]},
+            {"kind": "suffix", "pat": cps("_3"), "b": [{"k":"fin","n":40}]},
+        ],
+        "global": [], "n": 0, "d": 0, "qs": [0, 500, 1000]});
+    let two_renders = it % 2 == 1;
+    let mut evs = vec![json!({"ev": "reset", "kind": "par"})];
+    evs.extend(builder_events(&cfg));
+    let base = rng.random_range(0..64i64);
+    let series: Vec<(String, Vec<i64>)> = (0..nseries).map(|i| {
+        let name = if i % 2 == 0 { format!("h_series_{}", i) } else { format!("s_series_{}", i) };
+        let xs: Vec<i64> = (0..nsamples).map(|j| 8 * (j as i64) + ((base + i as i64) % 8)).collect();
+        (name, xs)
+    }).collect();
+    let r = catch_unwind(AssertUnwindSafe(|| -> Result<(Vec<Vec<Value>>, Vec<Value>), String> {
+        let rec = builder_of(&cfg).build_recorder();
+        let handle = rec.handle();
+        for (name, xs) in &series {
+            let h = rec.register_histogram(&Key::from_name(name.clone()), &METADATA);
+            for x in xs {
+                h.record(*x as f64 / 8.0);
+            }
+        }
+        let barrier = Arc::new(std::sync::Barrier::new(2));
+        let (h1, b1) = (handle.clone(), barrier.clone());
+        let t1 = std::thread::spawn(move || {
+            b1.wait();
+            Some(h1.render())
+        });
+        let (h2, b2) = (handle.clone(), barrier.clone());
+        let t2 = std::thread::spawn(move || {
+            b2.wait();
+            if two_renders {
+                Some(h2.render())
+            } else {
+                h2.run_upkeep();
+                None
+            }
+        });
+        let r1 = t1.join().map_err(|_| "render thread panicked".to_string())?;
+        let r2 = t2.join().map_err(|_| "second thread panicked".to_string())?;
+        let mut conc = vec![];
+        for t in [r1, r2].iter().flatten() {
+            conc.push(parse_render(t)?);
+        }
+        let fin = parse_render(&handle.render())?;
+        Ok((conc, fin))
+    }));
+    st.runs += 1;
+    match r {
+        Ok(Ok((conc, fin))) => {
+            st.renders += conc.len() + 1;
+            let sj: Vec<Value> = series.iter().map(|(n, xs)| json!({"name": cps(n), "samples": xs.iter().map(|x| json!({"k":"fin","n":x})).collect::<Vec<_>>() })).collect();
+            evs.push(json!({"ev": "par", "variant": if two_renders { "rr" } else { "ru" }, "series": sj, "conc": conc, "final": fin}));
+        }
+        Ok(Err(e)) => evs.push(json!({"ev": "parse_error", "msg": e})),
+        Err(_) => {
+            st.panics += 1;
+            evs.push(panic_event("par"));
+        }
+    }
+    emit(evs, true, w, st);
+}
+
 fn emit(evs: Vec<Value>, log: bool, w: &mut Writer, st: &mut Stats) {
     if !log {
         return;
@@ -904,6 +978,16 @@ fn main() {
                     _ => random_rec(&mut rng),
                 };
                 run_case(&c, true, &mut w, &mut st);
+            }
+        }
+        "par" => {
+            let iters: usize = args.num("iters", 300);
+            let nseries: usize = args.num("series", 24);
+            let nsamples: usize = args.num("samples", 8);
+            for it in 0..iters {
+                st.cases += 1;
+                st.logged_cases += 1;
+                run_par_iter(it, nseries, nsamples, &mut rng, &mut w, &mut st);
             }
         }
         "replay" => {
